@@ -67,7 +67,7 @@ func genOff(r *RNG) string {
 func genSize(r *RNG) string {
 	switch r.Intn(12) {
 	case 0:
-		return pick(r, []string{"0xffffffffffffffff", "0x10000000000000000", "0xffffffffffffffffffffffffffffffffffffffffffffffffffffffffffffffff", "0x100000"})
+		return pick(r, []string{"0xffffffffffffffff", "0x10000000000000000", "0xffffffffffffffffffffffffffffffffffffffffffffffffffffffffffffffff", "0x100000", "0x800000", "0x4000000"})
 	case 1, 2:
 		return "0x0"
 	case 3:
@@ -446,6 +446,13 @@ func (g *genCtx) genMacro(r *RNG, depth int) []Macro {
 			}
 			g.nCreates++
 		}
+		if forkAtLeast(g.fork, "Byzantium") && r.P(1, 2) {
+			// what the return-data buffer holds right after the create (empty unless the init code reverted)
+			ms = append(ms, Macro{K: "op", Op: "RETURNDATASIZE", Dst: 1 + r.Intn(0x1c0)})
+			if r.P(1, 3) {
+				ms = append(ms, Macro{K: "op", Op: "RETURNDATACOPY", A: []string{hxu(uint64(r.Intn(0x100))), "0x0", pick(r, []string{"0x1", "0x2", "0x20"})}})
+			}
+		}
 		return ms
 	case w < 88:
 		var body []Macro
@@ -592,6 +599,28 @@ func genStdScenario(seed uint64, prop string, maxFork string) *Scenario {
 			}
 		}
 		sc.Accounts = append(sc.Accounts, a)
+	}
+	if nc >= 2 && r.P(1, 10) {
+		// self-destruct cluster: the last contract destroys itself (beneficiary: an outsider, itself,
+		// or a contract that also self-destructs) and is called more than once in one transaction
+		last := len(sc.Accounts) - 1
+		ben := pick(r, []string{eoaB, sc.Accounts[last].Addr, contractAddr(0), ghost})
+		sc.Accounts[last].Code = &Program{M: []Macro{{K: "op", Op: "SSTORE", A: []string{"0x1", "0x1"}}, {K: "term", Op: "SELFDESTRUCT", A: []string{ben}}}}
+		first := len(sc.Accounts) - nc
+		callLast := Macro{K: "call", Op: "CALL", A: []string{"GAS", sc.Accounts[last].Addr, "0x0", "0x0", "0x0", "0x0", "0x0"}, Flag: "m:0x20"}
+		pre := []Macro{callLast}
+		if ben == contractAddr(0) && r.Bool() {
+			// the beneficiary destroys itself first
+			sc.Accounts[first].Code.M = append(sc.Accounts[first].Code.M, Macro{K: "term", Op: "SELFDESTRUCT", A: []string{eoaB}})
+		}
+		for k := 0; k < 1+r.Intn(2); k++ {
+			pre = append(pre, callLast)
+		}
+		if nc >= 3 {
+			mid := first + 1
+			sc.Accounts[mid].Code.M = append(append([]Macro{}, pre...), sc.Accounts[mid].Code.M...)
+		}
+		sc.Accounts[first].Code.M = append(pre, sc.Accounts[first].Code.M...)
 	}
 	ntx := 1 + r.Intn(3)
 	var ex Exec
